@@ -13,8 +13,7 @@
     These stay assumptions of the identity model (tied by the sampled correspondence
     `harness/heap_corr.py`; their VALUE behaviour is tied by ViewTie / RelTie2 / AbsTie2).
   * `GOrc`: the oracle of the generated code = an `Orc` plus the value-level branch decisions of the
-    translated bodies (`if duration < capacity:` in `Bar.__init__`, `if len(program_changes) > 0` in
-    `Track.__init__`), and `orcOf`, the `Orc` under which `HeapOps` takes the same decisions.
+    translated bodies (`if duration < capacity:` in `Bar.__init__`), and `orcOf`, the `Orc` under which `HeapOps` takes the same decisions.
 
   Core Lean only.
 -/
@@ -130,8 +129,12 @@ structure GOrc where
   orc : Orc
   /-- `duration < capacity` (bar.py:34) -/
   barPadDec : Nat → List Msg → Bool
-  /-- `len(program_changes) > 0` (track.py:22) together with `program_changes[0].program` (track.py:25) -/
-  program : Nat → List Msg → Option Int
+
+/-- `program_changes[0].program` if there is a PROGRAM_CHANGE, else `None` (track.py:21-25, translated exactly) -/
+def firstProgram (vs : List Msg) : Int :=
+  match vs.filter (fun m => m.ty == .programChange) with
+  | m :: _ => m.prog
+  | [] => pyNone
 
 /-- positions of the values satisfying `p`, counted from `k` -/
 def positions (p : Msg → Bool) : Nat → List Msg → List Nat
@@ -142,15 +145,15 @@ def positions (p : Msg → Bool) : Nat → List Msg → List Nat
     * `barPadMsg`: the WAIT that `pad` appends if `Bar.__init__` calls it, `none` if it does not;
     * `perm`: the only re-ordering in the translated routes is the filter of bar.py:47-48
       (`msg.message_type != MessageType.TIME_SIGNATURE`), translated exactly;
-    * `tsMsg`: the `Message(TIME_SIGNATURE, channel=default_channel, numerator, denominator)` of bar.py:49-52,
-      translated exactly through `Message.__init__`;
-    * `program`: `None` if there is no program change -/
+    * `tsMsg` (the `Message(TIME_SIGNATURE, channel=default_channel, numerator, denominator)` of `Bar.__init__`) is the oracle's:
+      its channel is the value-level `default_channel`;
+    * `program`: the program of the first PROGRAM_CHANGE the track's bars hold, `None` if there is none: `Track.__init__`
+      is translated exactly (`firstProgram`) -/
 def orcOf (g : GOrc) : Orc :=
   { g.orc with
     barPadMsg := fun t vs => if g.barPadDec t vs then g.orc.padMsg t vs else none
     perm := fun _ vs => positions (fun m => m.ty != .timeSignature) 0 vs
-    tsMsg := fun n d => { ty := .timeSignature, ch := 0, num := n, den := d }
-    program := fun t vs => (g.program t vs).getD pyNone }
+    program := fun _ vs => firstProgram vs }
 
 /-! ## link table: view-level methods that are not translated (identity behaviour as in `HeapOps`) -/
 
